@@ -10,6 +10,7 @@ import (
 // registerIntrinsics3: pure standard-library string helpers, executed natively on concrete
 // arguments (choice strings are concretised, i.e. the path forks per alternative).
 func registerIntrinsics3(e *Engine) {
+	e.intr["time.After"] = func(e *Engine, fr *frame, a []Value) Value { return &Chan{} } // the watchdog never fires: the step budget is the bound
 	I := e.intr
 	s1 := func(name string, f func(string) string) {
 		I[name] = func(e *Engine, fr *frame, a []Value) Value {
